@@ -54,7 +54,7 @@ IO_HASH = ["io", "hash"]
 HDR_DEC = ("peek_valid_tag_header == ref_header(window[cursor..fill]) + fault set: accepted header mirrors the bytes (C03a), result independent of stale bytes "
            "beyond the fill level (C04a), no panic and 2<=header_len<=available (C05a), truncated header -> accurate EOF error never corruption (C12a), "
            "rejections carry their own kind/id/offset under every tolerance mask (C13), size above limit never accepted, no overflow (C17a)")
-add("hdr_flat_full", ["C03", "C04", "C05", "C13", "C17"], "hdr.rs", "U", HDR_DEC,
+add("hdr_flat_full", ["C03", "C04", "C05", "C13", "C14", "C17"], "hdr.rs", "U", HDR_DEC,
     "24-byte buffer fully symbolic, cursor 0..=3, fill >= cursor+16 (every header fits), base offset < 2^40, all 8 masks, limit any Option<usize>; spec Flat",
     timeout_s=1800, mem_gb=16, stubs=IO_HASH, big_stack=True,
     assumes=["Inv_buf: cursor <= fill <= allocation = 24, buffer_offset = Some(base)", "empty tag stack, document path not yet determined"])
@@ -229,4 +229,26 @@ add("rn_eof_noclose_2", ["C04", "C06"], "rn.rs", "U", "read_next at (temporary) 
     timeout_s=1200, mem_gb=10, stubs=IO_HASH, big_stack=True, assumes=RN_A)
 
 add("cut_b14_then_one_byte", ["C12", "C04", "C05"], "doc.rs", "S", "a 16-byte element exactly filling a capacity-16 buffer followed by ONE dangling byte: element emitted, then UnexpectedEOF at offset 16 with the id and no size (never a normal end)",
-    "14 symbolic payload bytes; capacity 16; slice source", timeout_s=1500, mem_gb=12, stubs=IO_HASH, big_stack=True, assumes=DOC_A)
+    "first and last of the 14 payload bytes symbolic; capacity 16; slice source", timeout_s=2400, mem_gb=20, stubs=IO_HASH, big_stack=True, assumes=DOC_A)
+
+# ---------------------------------------------------------------- validator with unknown-size masters (direct call)
+VT = [("c11_vtree_root_u", "[Root?]"), ("c11_vtree_root_a_ku", "[Root, A?]"), ("c11_vtree_root_a_uk", "[Root?, A]"), ("c11_vtree_root_a_uu", "[Root?, A?]"),
+      ("c11_vtree_root_a_b_kku", "[Root, A, B?]"), ("c11_vtree_root_a_b_kuk", "[Root, A?, B]"), ("c11_vtree_root_a_b_kuu", "[Root, A?, B?]"), ("c11_vtree_root_a_b_ukk", "[Root?, A, B]"),
+      ("c11_vtree_root_a_b_uku", "[Root?, A, B?]"), ("c11_vtree_root_a_b_uuk", "[Root?, A?, B]"), ("c11_vtree_root_a_b_uuu", "[Root?, A?, B?]"), ("c11_vtree_root_a2_uk", "[Root?, A2]"),
+      ("c11_vtree_root_a2_uu", "[Root?, A2?]"), ("c11_vtree_root2_u", "[Root2?]")]
+for n, ch in VT:
+    add(n, ["C11", "C06", "C07", "C02"], "hier.rs", "U", "validate_tag_path over Tree with open masters %s (? = unknown size): accepted iff the declared path matches the chain left after the element closed the trailing unknown-size masters it ends" % ch,
+        "every declared element id of Tree, each tried as a constant (finite domain enumerated exhaustively inside the harness; NO symbolic slot: CBMC acts as an exhaustive interpreter here); chain and known/unknown pattern enumerated", timeout_s=900, mem_gb=8,
+        assumes=["element id is in the specification (the call sites only validate specification elements)"])
+
+# ---------------------------------------------------------------- containment on deep stacks (minimal symbolic state)
+for n, ch in (("hdr_contain_kk", "[Root, A] both known-size"), ("hdr_contain_ku", "[Root known, A unknown]"), ("hdr_contain_kkk", "[Root, A, B] all known-size"),
+              ("hdr_contain_kuk", "[Root known, A unknown, B known]"), ("hdr_contain_kku", "[Root, A known, B unknown]")):
+    add(n, ["C06", "C13"], "hdr_tree.rs", "U", "peek_valid_tag_header with open masters %s, id/hierarchy problems tolerated, no limit: a global element is rejected as OversizedChildElement (at its offset) iff it overruns ANY known-size ancestor" % ch,
+        "element size 0..=126 (1-byte size field) symbolic; every known master's size symbolic (nested, not exhausted); offsets concrete",
+        timeout_s=1500, mem_gb=12, stubs=IO_HASH, big_stack=True, assumes=["Inv_stack on the seeded stack", "InvalidTagIds and HierarchyProblems tolerated, size limit off"])
+add("c10_raw_unknown_in_known", ["C10"], "wr.rs", "U", "write_raw under [Root known-size, A unknown-size]: destination untouched, element buffered", "2 symbolic payload bytes, 3 symbolic buffered bytes", timeout_s=1200, mem_gb=8, stubs=WST,
+    assumes=["Inv_w"])
+add("c10_raw_unknown_only", ["C10"], "wr.rs", "U", "write_raw under one unknown-size master: element handed over completely, buffer empty", "2 symbolic payload bytes", timeout_s=1200, mem_gb=8, stubs=WST, assumes=["Inv_w"])
+add("c10_flush_closes_empty_master", ["C10", "C09"], "wr.rs", "U", "flush() with an opened-but-empty known-size master (at top level or under an unknown-size master) and an empty buffer: master closed, its 2-byte header delivered, nothing buffered",
+    "both nestings (symbolic choice)", timeout_s=1800, mem_gb=12, stubs=WST, assumes=["Inv_w"])
